@@ -91,6 +91,9 @@ def entry_ops(t):
         ("extend_query_str", m("extend_query", t)), ("extend_query_dict", m("extend_query", {"t": "dict", "v": [[t, t]]})),
         ("update_query_str", m("update_query", t)), ("update_query_dict", m("update_query", {"t": "dict", "v": [[t, t]]})),
         ("without_query_params", m("without_query_params", t)),
+        # the KEYWORD form: f(**{name: value}) - keyword names need not be identifiers
+        ("with_query_kwargs", {"op": "mod", "base": B, "m": "with_query", "kw": {t: t}}), ("extend_query_kwargs", {"op": "mod", "base": B, "m": "extend_query", "kw": {t: t, "z": "1"}}),
+        ("update_query_kwargs", {"op": "mod", "base": B, "m": "update_query", "kw": {t: t}}), ("with_query_kwargs_rel", {"op": "mod", "base": R, "m": "with_query", "kw": {"k": t, t: "v"}}),
         ("div", {"op": "div", "base": B, "arg": t}), ("div_rel", {"op": "div", "base": R, "arg": t}), ("mod%", {"op": "mod%", "base": B, "arg": t}),
         ("joinpath", m("joinpath", t, "z", t)), ("joinpath_rel", m("joinpath", t, base=R)),
         ("join.ref", {"op": "join", "base": B, "ref": c(t)}), ("join.ref_path", {"op": "join", "base": B, "ref": c("r/" + t)}),
